@@ -315,10 +315,13 @@ Fixpoint print_items (lay : layout) (items : list item) : str :=
   | [] => []
   | it :: r => w1 lay 0 ++ print_item (sub lay 1) it ++ print_items (sub lay 2) r
   end.
-(* the text handed to parse_tag: tag name, arguments, optional self-closing slash, trailing white space *)
+(* the text handed to parse_tag: tag name, arguments, optional self-closing slash (written like one more argument,
+   after white space of its own), trailing white space *)
+Definition slash_item : item := IFlag [47%N].
+Definition items_with_slash (a : arglist) : list item :=
+  al_items a ++ (if al_slash a then [slash_item] else []).
 Definition print (lay : layout) (tag : str) (a : arglist) : str :=
-  tag ++ print_items (sub lay 0) (al_items a)
-  ++ (if al_slash a then w1 lay 1 ++ [47%N] else []) ++ w0 lay 2.
+  tag ++ print_items (sub lay 0) (items_with_slash a) ++ w0 lay 2.
 
 Definition flags_of (items : list item) : list str :=
   flat_map (fun it => match it with IFlag f => [f] | _ => [] end) items.
